@@ -3,7 +3,9 @@ Per sheet: RowSem (Gallina reference meaning, Flow/RowSem.v) vs the flow the
 implementation compiled from the CSV text, decided by the verified simulation checker
 (Flow/Lts.v check_sound) in both directions — equality of behaviour for ALL input/outcome
 sequences up to names the sheet does not fix."""
+import copy
 import json
+import re
 
 import comp_corr
 import flowutil
@@ -73,6 +75,101 @@ def name_clashes(rows):
     return out
 
 
+BUCKET_RE = re.compile(r"^Bucket \d+$")
+
+
+def bucket_clashes(rows):
+    """explicit names of the sheet that are spelt exactly like a name RandomRouter.add_choice invents for an unnamed
+    bucket ("Bucket <n>")"""
+    return {x for r in rows for e in r["edges"] for x in (e["name"], e["value"]) if BUCKET_RE.match(x)}
+
+
+def declash(rows, buckets=True):
+    """the same sheet with every explicit name that name_clashes (and, with `buckets`, bucket_clashes) report replaced
+    - consistently, so that tests which share a category still share it - by a name nothing else in the sheet has.
+    What the known findings category-name-clash / bucket-name-clash describe cannot happen in it."""
+    rows = copy.deepcopy(rows)
+    ren = {}
+    for nm in sorted(name_clashes(rows)):
+        ren[nm] = "Zq name %d" % len(ren)
+    bren = {nm: "Zq bucket %d" % i for i, nm in enumerate(sorted(bucket_clashes(rows)))} if buckets else {}
+    for r in rows:
+        for e in r["edges"]:
+            if e["name"] in ren:
+                e["name"] = ren[e["name"]]
+            if e["name"] in bren:
+                e["name"] = bren[e["name"]]
+            if e["value"] in bren:
+                e["value"] = bren[e["value"]]
+    return rows
+
+
+def verdict_of(ctx, abstract, layout):
+    """-> (checker verdict "1" / "0" / "2" or "rejected", written rows, headers, cells, flow) of one more sheet (no
+    statistics, no report): used to tell WHY a sheet fails"""
+    headers, cells = sheetgen.render_sheet(abstract, None, layout)
+    rows = sheetgen.written_rows(abstract, headers)
+    r = flowutil.compile_workbook(flowutil.single_flow_workbook("f1", headers, cells))
+    if r[0] != "ok":
+        return "rejected", rows, headers, cells, None
+    flow = r[1]["flows"][0]
+    return ctx.model.ask("(7 2 %s %s)" % (rowref.rows_sexp(rows), flowutil.flow_sexp(flow))), rows, headers, cells, flow
+
+
+def minimise(ctx, abstract, layout, budget=200):
+    """a smaller sheet that still compiles, still has a reference meaning and is still rejected by the checker: rows,
+    then single edges, are left out greedily (a row that others name cannot go: the sheet would not compile)"""
+    cur = abstract
+    changed = True
+    while changed and budget > 0:
+        changed = False
+        for i in reversed(range(len(cur))):
+            if len(cur) <= 1 or budget <= 0:
+                break
+            cand = cur[:i] + cur[i + 1:]
+            budget -= 1
+            if verdict_of(ctx, cand, layout)[0] == "2":
+                cur, changed = cand, True
+        for i in range(len(cur)):
+            for j in reversed(range(len(cur[i]["edges"]))):
+                if len(cur[i]["edges"]) <= 1 or budget <= 0:
+                    break
+                cand = copy.deepcopy(cur)
+                del cand[i]["edges"][j]
+                budget -= 1
+                if verdict_of(ctx, cand, layout)[0] == "2":
+                    cur, changed = cand, True
+    return cur
+
+
+def model_agrees(ctx, rows, headers, cells, flow):
+    """the compiler MODEL (Comp/Compile.v, extracted) against the flow the implementation compiled from this sheet:
+    the whole rendered flow up to a renaming of invented uuids (comp_corr.py; C01 runs this on its own sheets, here
+    it is run on the sheets whose words collide with the names the tool invents).  rows = the written rows."""
+    try:
+        mo = comp_corr.model_compile(ctx.model, rows)
+    except (ValueError, KeyError):
+        ctx.count("names: model correspondence - sheet outside the encodable vocabulary")
+        return
+    case = dict(label="reserved names", rows=rows, headers=headers, cells=[[c.get(h, "") for h in headers] for c in cells])
+    if mo[0] != "ok":
+        ctx.disagree("compile verdict differs (model vs create_flows)", case, repr(mo[:2]), "ok")
+        return
+    given = {r.get("node_uuid") for r in rows if r.get("node_uuid")}
+    cm, ci = comp_corr.canon(mo[1], given), comp_corr.canon(comp_corr.impl_flow(flow), given)
+    if not comp_corr.ascii_only(rows):
+        ctx.count("names: model correspondence - non-ASCII condition (names not compared)")
+        for c in (cm, ci):
+            for n in c["nodes"]:
+                if "router" in n:
+                    n["router"]["categories"] = [(u, "", x) for (u, _, x) in n["router"]["categories"]]
+    d = comp_corr.first_difference(cm, ci)
+    if d:
+        ctx.disagree("compiled flow differs (model vs create_flows): " + d, case, json.dumps(cm)[:1500], json.dumps(ci)[:1500])
+    else:
+        ctx.count("names: model correspondence - flows equal (names of all categories included)")
+
+
 def has_group_from_noop(rows):
     """does an edge with a has_group test (and a value) leave a no_op row?"""
     noops = {r["row_id"] for r in rows if r["type"] == "no_op" and r.get("row_id")}
@@ -86,9 +183,10 @@ def has_group_from_noop(rows):
     return False
 
 
-def judge(ctx, rows, layout_rng, nontrivial, samples, wf=True):
+def judge(ctx, rows, layout_rng, nontrivial, samples, wf=True, model_too=False):
     v, m = ctx.v, ctx.model
     headers, cells = sheetgen.render_sheet(rows, layout_rng)
+    layout = "short" if "from" in headers else "long"
     # the rows as the rendered sheet holds them: with the edges.N.* headers every row has as many edge entries as the
     # widest row, the missing ones blank.  The reference does not read a blank entry as an edge, in any kind of row.
     abstract, rows = rows, sheetgen.written_rows(rows, headers)
@@ -125,6 +223,8 @@ def judge(ctx, rows, layout_rng, nontrivial, samples, wf=True):
     if not m:
         return
     res = m.ask("(7 2 %s %s)" % (rs, flowutil.flow_sexp(flow)))
+    if model_too and m:
+        model_agrees(ctx, rows, headers, cells, flow)
     if res == "1":
         ctx.count("equivalent")
         key = json.dumps([(x["type"], len(x["edges"])) for x in rows])
@@ -145,9 +245,41 @@ def judge(ctx, rows, layout_rng, nontrivial, samples, wf=True):
         if tr is None:
             ctx.disagree("checker rejects but no distinguishing sequence found", dict(rows=rows), "2", "")
         else:
-            clash = name_clashes(rows)
-            v.failing_input("category-name-clash" if clash else "control-flow-differs",
-                            (f"explicit category name(s) {sorted(clash)!r} are also the name of another category of the router; " if clash else "")
+            clash, bclash = name_clashes(rows), bucket_clashes(rows)
+            key = "control-flow-differs"
+            failing = abstract
+            if clash or bclash:
+                # the known findings are about EXPLICIT names that are also the name of another category.  Are they
+                # why this sheet fails?  The same sheet with those names replaced by names nothing else has:
+                res2 = None
+                if clash:
+                    res2, rows2, headers2, cells2, flow2 = verdict_of(ctx, declash(abstract, buckets=False), layout)
+                    if res2 == "1":
+                        key = "category-name-clash"
+                if bclash and res2 != "1":
+                    res2, rows2, headers2, cells2, flow2 = verdict_of(ctx, declash(abstract), layout)
+                    if res2 == "1":
+                        key = "bucket-name-clash"
+                if res2 == "1":
+                    ctx.count("failing sheets that pass once the clashing explicit names are replaced: " + key)
+                elif res2 == "2":
+                    # no: it fails without them - that sheet is the failing input
+                    ref2 = parse_sexp(m.ask("(7 1 %s)" % rowref.rows_sexp(rows2)))
+                    tr2 = flowutil.distinguishing_trace(rowref.flow_from_sexp(ref2[0]), flow2) if ref2 else None
+                    if tr2 is not None:
+                        rows, headers, cells, tr, clash, bclash, failing = rows2, headers2, cells2, tr2, set(), set(), declash(abstract)
+                    ctx.count("failing sheets that still fail once the clashing explicit names are replaced")
+            if key == "control-flow-differs" and v.viol_by_key.get(key, 0) < 2 and not any(k["key"] == key for k in v.known):
+                # this one is written out as a replay: make it small
+                small = minimise(ctx, failing, layout)
+                res3, rows3, headers3, cells3, flow3 = verdict_of(ctx, small, layout)
+                ref3 = parse_sexp(m.ask("(7 1 %s)" % rowref.rows_sexp(rows3))) if res3 == "2" else None
+                tr3 = flowutil.distinguishing_trace(rowref.flow_from_sexp(ref3[0]), flow3) if ref3 else None
+                if tr3 is not None:
+                    ctx.count("replays minimised: rows %d -> %d" % (len(rows), len(rows3)))
+                    rows, headers, cells, tr = rows3, headers3, cells3, tr3
+            v.failing_input(key,
+                            (f"explicit category name(s) {sorted(clash | bclash)!r} are also the name of another category of the router; " if key != "control-flow-differs" else "")
                             + f"input/outcome sequence {tr!r} separates the rows' meaning from the compiled flow",
                             dict(headers=headers, cells=[[c.get(h, "") for h in headers] for c in cells], rows=rows, trace=tr))
     else:
@@ -176,6 +308,42 @@ def run(ctx):
             judge(ctx, strip_names(rows), rng, nontrivial, samples, wf=True)
             if ctx.stats.get("refinement: sheets in the fragment of the theorem", 0) > before:
                 ctx.count("fragment_sheets inside the fragment")
+    # words that are also names the tool invents or reserves, in every position a sheet can hold them (sheetgen.Gen
+    # collide mode): a small vocabulary per sheet, so that values meet the invented names and one another, in every
+    # order of the edges of a decision; these sheets also go through the compiler model (all category names compared)
+    tags = {}
+    for i in range(n // 2):
+        rng = ctx.rng
+        wf = rng.random() > 0.1
+        rows, g = sheetgen.gen_core_sheet(rng, rng.choice([3, 4, 6, 10, 15]), wf=wf, special_text=rng.random() < 0.3,
+                                          has_group=rng.random() < 0.5, clash_names=rng.random() < 0.15, collide=True)
+        if not rows:
+            continue
+        ctx.count("reserved_name_sheets")
+        for t, k in g.tags.items():
+            tags[t] = tags.get(t, 0) + k
+        judge(ctx, strip_names(rows) if rng.random() < 0.5 else rows, rng, nontrivial, samples, wf=wf, model_too=True)
+    # histories on ONE node group: a decision and 3..9 edges leaving it, all words from a vocabulary of one or two
+    # reserved words (sheetgen.gen_star_sheet).  FlowParser applies the edges one after the other to the same
+    # RowNodeGroup / NoOpNodeGroup and router: every edge meets the categories - and the invented names - the earlier
+    # ones left behind.  EVERY PREFIX of the sheet (the state after each edge) is judged: the compiled flow against
+    # the meaning of the rows by the verified checker, and against the compiler model with all category names.
+    hist = {}
+    for i in range(n // 5):
+        rng = ctx.rng
+        rows, base, g = sheetgen.gen_star_sheet(rng, rng.choice([3, 4, 5, 7, 9]), clash_names=rng.random() < 0.1)
+        ctx.count("star_sheets")
+        for t, k in g.tags.items():
+            tags[t] = tags.get(t, 0) + k
+        hist[len(rows) - base] = hist.get(len(rows) - base, 0) + 1
+        before = sum(ctx.v.viol_by_key.values()) + sum(ctx.v.known_hits.values())
+        for k in range(base + 1, len(rows) + 1):
+            ctx.count("star_sheet prefixes judged")
+            judge(ctx, rows[:k], rng, nontrivial, samples, wf=True, model_too=True)
+            if sum(ctx.v.viol_by_key.values()) + sum(ctx.v.known_hits.values()) > before:
+                break       # the first edge after which the flow is wrong: longer prefixes repeat it
+    ctx.stats["star sheets by number of edges leaving the decision"] = dict(sorted(hist.items()))
+    ctx.stats["reserved names written (collide mode), by kind"] = dict(sorted(tags.items()))
     # node merging through the node name (rows sharing a _nodeId), written deliberately
     for i in range(n // 10):
         rng = ctx.rng
@@ -191,6 +359,10 @@ def run(ctx):
         "several operands), 2..15 rows, all row types of the core vocabulary, joins, go_to cycles, no_op forwarding and no_op "
         "decisions, anonymous rows, short and long edge headers, texts with separators/newlines/non-ASCII; each compiled by "
         "rpft.converters.create_flows from CSV files and compared with RowSem by the Coq-verified checker. "
+        "Plus (strengthening after wave 3): sheets whose words come from a small per-sheet vocabulary of names the tool invents or reserves "
+        "(Other, No Response, Bucket <n>, Success/Failure, Complete/Expired, start, None, ... in every capitalisation; as condition values, explicit "
+        "category names, bucket / group names, row ids, result names) and star sheets (one decision, 3-9 edges, one or two such words), every "
+        "prefix of a star sheet judged; these also compared with the compiler model, category names included. "
         "non-trivial = distinct (row type, edge count) profile with >= 3 rows and at least one conditional edge")
     ctx.v.assumptions += [
         "expected action payloads and initial decisions per row type (harness/rowref.py) are written from the RapidPro flow spec",
